@@ -1255,3 +1255,358 @@ Section Composite.
       (fun _ p env => m_run fe limit p env)
       (fun _ => false).
 End Composite.
+
+(* ---- D.3 Compile / Eval / Run on the models never panic *)
+Section CompositeProofs.
+  Variables uni_letter uni_digit uni_space : Z -> bool.
+  Variable gr : X.Parse.Parser.grammar.
+  Variable orc : X.Parse.Parser.oracles.
+  Variable fe : fenv.
+  Variable limit : Z.
+  Variable te : tenv.
+  Variable perm : TypesTable.table -> TypesTable.table.
+  Variable implements : ty -> ty -> bool.
+  Variable tyof : cconfig -> expr -> loc -> ty.
+  Notation XS := (x_stages uni_letter uni_digit uni_space gr orc fe limit te perm implements tyof).
+  Notation x_opt_apply := (x_opt_apply fe perm).
+  Notation x_patch := (x_patch implements tyof).
+
+  (* the carve-outs: tables usable, acyclic declarations, the grammar table gives the builtins their arity *)
+  Hypothesis W : weights_usable.
+  Hypothesis Hte : te_acyclic te = true.
+  Hypothesis Hgr : ParseArity.builtins_ok gr = true.
+
+  (* a well-behaved user visitor returns (no panic), and from a tree whose builtin nodes carry their
+     arguments it makes such a tree again *)
+  Definition vis_ok (v : xvis) : Prop :=
+    forall t, arity_ok t = true ->
+      match v t with POk t' => arity_ok t' = true | PErr => True | PPanic => False end.
+  (* options: no pointer-to-map environment (finding C04-option-env-pointer-to-map), well-behaved visitors *)
+  Definition opt_ok (o : xopt) : Prop :=
+    match o with OEnv env _ => env_panics env = false | OPatch v => vis_ok v | _ => True end.
+
+  Definition CI (c : xcfg) : Prop := cc_te (x_cc c) = te /\ Forall vis_ok (x_visitors c).
+  Definition CK (c : xcfg) : Prop := x_checked c = true.
+
+  Lemma create_tt_total env : create_types_table te perm env <> None.
+  Proof.
+    unfold create_types_table. destruct env as [t|mt entries].
+    - destruct (elem1 t); try discriminate.
+      pose proof (proj2 (X.Ty.TyProofs.ffs_defined te perm (fuel0 te) (TStruct name))
+                    (emb_ok_fuel_ok te _ _ (te_acyclic_emb_ok te (TStruct name) Hte))) as [tb E].
+      rewrite E. discriminate.
+    - destruct (under (elem1 mt)); try discriminate. destruct t1; discriminate.
+  Qed.
+
+  Lemma opt_apply_ok o c : opt_ok o -> CI c ->
+    ((match o with OConstExpr _ => false | _ => true end) = true -> x_opt_apply o c <> PPanic) /\
+    (forall c', x_opt_apply o c = POk c' -> CI c').
+  Proof.
+    intros Ho [Ht Hv]. destruct o; cbn [opt_ok] in Ho; cbn [x_opt_apply StageTotality.x_opt_apply].
+    - rewrite Ho, Ht. pose proof (create_tt_total env) as Hc.
+      destruct (create_types_table te perm env) as [tb|]; [|contradiction].
+      split; [discriminate|]. intros c' E. inversion E; subst c'. split; [reflexivity|exact Hv].
+    - split; [discriminate|]. intros c' E. inversion E; subst c'. split; [exact Ht|exact Hv].
+    - split; [discriminate|]. intros c' E. inversion E; subst c'. split; [exact Ht|exact Hv].
+    - split; [discriminate|]. intros c' E. destruct (x_env c); [|discriminate].
+      destruct (fetch_fn fe v fn); [|discriminate]. inversion E; subst c'. split; [exact Ht|exact Hv].
+    - split; [discriminate|]. intros c' E. inversion E; subst c'. split; [exact Ht|exact Hv].
+    - split; [discriminate|]. intros c' E. inversion E; subst c'. split; [exact Ht|exact Hv].
+    - split; [discriminate|]. intros c' E. inversion E; subst c'. split; [exact Ht|].
+      cbn [x_visitors]. apply Forall_app. split; [exact Hv|constructor; [exact Ho|constructor]].
+  Qed.
+
+  Lemma of_ores_np r : of_ores r <> PPanic.
+  Proof. destruct r; discriminate. Qed.
+
+  Tactic Notation "case_out" ident(x) ident(H) :=
+    match goal with
+    | |- context [obind ?G _] => destruct G as [x| |] eqn:H; cbn [obind]
+    | |- context [match ?G with POk _ => _ | PErr => _ | PPanic => _ end] => destruct G as [x| |] eqn:H
+    end.
+
+  Lemma cfg_ok_of c : CI c -> CK c -> cfg_ok (x_cc c) = true.
+  Proof.
+    intros [Ht _] Hk. unfold cfg_ok. rewrite Ht, Hte. cbn [andb].
+    apply config_check_ops_usable. exact Hk.
+  Qed.
+
+  Section Api.
+  Variable rt : rtable.
+  Variable a : api.
+  Hypothesis Gopt : guarded rt a StConstExprOpt = true.
+  Hypothesis Gcomp : guarded rt a StCompile = true.
+  Hypothesis Gvm : guarded rt a StVMRun = true.
+
+  Lemma x_apply_options_ok : forall os c failed, Forall opt_ok os -> CI c ->
+    apply_options rt XS a os c failed <> PPanic /\
+    (forall cf, apply_options rt XS a os c failed = POk cf -> CI (fst cf)).
+  Proof.
+    induction os as [|o r IH]; intros c failed Ho Hc; cbn [apply_options].
+    - split; [discriminate|]. intros cf E. inversion E; subst cf. exact Hc.
+    - inversion Ho as [|o' r' Ho1 Ho2]; subst. destruct (opt_apply_ok o c Ho1 Hc) as [Hnp Hpost].
+      cbn [s_opt_is_constexpr s_opt_apply x_stages].
+      match goal with
+      | |- context [match ?G with POk _ => _ | PErr => _ | PPanic => _ end] =>
+          assert (Hg : G <> PPanic);
+          [unfold g; apply guard_no_panic; destruct o; try (right; apply Hnp; reflexivity); left; exact Gopt|
+           destruct G as [c'| |] eqn:E; [| |contradiction]]
+      end.
+      + apply IH; [exact Ho2|]. apply Hpost. unfold g in E. apply guard_ok_inv in E. exact E.
+      + apply IH; [exact Ho2|exact Hc].
+  Qed.
+
+  Lemma x_run_visitors_ok h : forall vs t, Forall vis_ok vs -> arity_ok t = true ->
+    run_visitors rt XS a h vs t <> PPanic /\
+    (forall t', run_visitors rt XS a h vs t = POk t' -> arity_ok t' = true).
+  Proof.
+    induction vs as [|v r IH]; intros t Hv Ht; cbn [run_visitors].
+    - split; [discriminate|]. intros t' E. inversion E; subst. exact Ht.
+    - inversion Hv as [|v' r' Hv1 Hv2]; subst. cbn [s_visit x_stages]. pose proof (Hv1 t Ht) as Hvt.
+      case_out t1 E.
+      + apply guard_ok_inv in E. rewrite E in Hvt. apply IH; assumption.
+      + split; [discriminate|discriminate].
+      + exfalso. revert E. apply guard_no_panic. right. intros E. rewrite E in Hvt. exact Hvt.
+  Qed.
+
+  Lemma x_optimize_np c t : optimize rt XS a c t <> PPanic.
+  Proof.
+    unfold optimize. cbn [s_opt_inarray s_opt_fold s_has_constexpr s_opt_constexpr s_opt_inrange s_opt_constrange x_stages].
+    unfold g.
+    apply obind_no_panic; [apply guard_no_panic; right; discriminate|intros t1 _].
+    apply obind_no_panic; [apply guard_no_panic; right; apply of_ores_np|intros t2 _].
+    apply obind_no_panic.
+    { destruct (x_consts c); [discriminate|]. apply guard_no_panic. right. apply of_ores_np. }
+    intros t3 _.
+    apply obind_no_panic; [apply guard_no_panic; right; discriminate|intros t4 _].
+    apply guard_no_panic. right. discriminate.
+  Qed.
+
+  (* the state between the calls *)
+  Definition PChk (s : pst XS) : Prop := CI (p_cfg s) /\ CK (p_cfg s).
+  Definition PTree (s : pst XS) : Prop := PChk s /\ exists t, p_tree s = Some t /\ arity_ok t = true.
+  Definition HasTree (s : pst XS) : Prop := exists t, p_tree s = Some t.
+  Definition HasProg (s : pst XS) : Prop := exists p, p_prog s = Some p.
+
+  Variables (opts : list xopt) (src : list Z) (env : value).
+  Notation ex := (exec rt XS a opts src env).
+
+  Lemma st_options (s : pst XS) : Forall opt_ok opts -> CI (p_cfg s) ->
+    ex COptions s <> PPanic /\ (forall s', ex COptions s = POk s' -> CI (p_cfg s')).
+  Proof.
+    intros Ho Hc. cbn [exec]. destruct (x_apply_options_ok opts (p_cfg s) (p_cfgerr s) Ho Hc) as [H1 H2].
+    destruct (apply_options rt XS a opts (p_cfg s) (p_cfgerr s)) as [cf| |]; cbn [obind]; [|split; discriminate|contradiction].
+    split; [discriminate|]. intros s' E. inversion E; subst s'. cbn [p_cfg]. apply H2. reflexivity.
+  Qed.
+
+  Lemma st_config_check (s : pst XS) : CI (p_cfg s) ->
+    ex CConfigCheck s <> PPanic /\ (forall s', ex CConfigCheck s = POk s' -> PChk s').
+  Proof.
+    intros Hc. cbn [exec]. cbn [s_config_check x_stages]. unfold g, x_config_check.
+    destruct (x_checked (p_cfg s)) eqn:K.
+    - case_out u E.
+      + split; [destruct (p_cfgerr s); discriminate|]. intros s' E'. destruct (p_cfgerr s); [discriminate|].
+        inversion E'; subst s'. split; [exact Hc|exact K].
+      + split; discriminate.
+      + exfalso. revert E. apply guard_no_panic. right. discriminate.
+    - case_out u E.
+      + apply guard_ok_inv in E. discriminate.
+      + split; discriminate.
+      + exfalso. revert E. apply guard_no_panic. right. discriminate.
+  Qed.
+
+  Lemma st_parse (s : pst XS) :
+    ex CParse s <> PPanic /\
+    (forall s', ex CParse s = POk s' -> p_cfg s' = p_cfg s /\ p_prog s' = p_prog s /\ exists t, p_tree s' = Some t /\ arity_ok t = true).
+  Proof.
+    cbn [exec]. cbn [s_lex s_parse x_stages]. unfold g.
+    case_out ts E.
+    - apply guard_ok_inv in E.
+      case_out t E2.
+      + apply guard_ok_inv in E2. split; [discriminate|]. intros s' E'. inversion E'; subst s'. cbn.
+        split; [reflexivity|]. split; [reflexivity|]. exists t. split; [reflexivity|].
+        unfold m_parse in E2. destruct ts as [|tk r]; [discriminate|].
+        destruct (X.Parse.Parser.parse gr orc (tk :: r)) as [e| |] eqn:P; try discriminate.
+        inversion E2; subst. exact (ParseArity.parse_arity_ok gr orc _ _ Hgr P).
+      + split; discriminate.
+      + exfalso. revert E2. apply guard_no_panic. right. exact (m_parse_total _ _ _ gr orc src ts E).
+    - split; discriminate.
+    - exfalso. revert E. apply guard_no_panic. right. apply m_lex_total.
+  Qed.
+
+  Lemma x_check_np c t : CI c -> CK c -> arity_ok t = true -> x_check c t <> PPanic.
+  Proof.
+    intros Hc Hk Ha. unfold x_check.
+    destruct (check_never_stuck (x_cc c) W (cfg_ok_of c Hc Hk) t Ha) as [Hn _].
+    destruct (snd (check (x_cc c) t)) as [[l k]|]; [|discriminate].
+    destruct k; try discriminate. exfalso. exact (Hn l eq_refl).
+  Qed.
+
+  Lemma x_check_post c t t' : x_check c t = POk t' -> arity_ok t' = arity_ok t.
+  Proof.
+    unfold x_check. destruct (snd (check (x_cc c) t)) as [[l k]|].
+    - destruct k; discriminate.
+    - intros E. inversion E; subst. apply check_keeps_arity.
+  Qed.
+
+  Lemma PTree_with (s : pst XS) t : PChk s -> arity_ok t = true -> PTree (with_tree XS s t).
+  Proof. intros H Ht. split; [exact H|]. exists t. split; [reflexivity|exact Ht]. Qed.
+
+  Lemma st_check tol (s : pst XS) : PTree s -> ex (CCheck tol) s <> PPanic /\ (forall s', ex (CCheck tol) s = POk s' -> PTree s').
+  Proof.
+    intros [[Hc Hk] (t & Et & Ha)]. cbn [exec]. rewrite Et. cbn [s_check s_check_partial s_visitors x_stages]. unfold g.
+    pose proof (x_check_np (p_cfg s) t Hc Hk Ha) as Hnp.
+    case_out t' E.
+    - apply guard_ok_inv in E. split; [discriminate|]. intros s' E'. inversion E'; subst s'.
+      apply PTree_with; [split; assumption|]. rewrite (x_check_post _ _ _ E). exact Ha.
+    - match goal with |- context [if ?b then _ else _] => destruct b end.
+      + split; [discriminate|]. intros s' E'. inversion E'; subst s'.
+        apply PTree_with; [split; assumption|]. unfold x_check_partial. rewrite check_keeps_arity. exact Ha.
+      + split; discriminate.
+    - exfalso. revert E. apply guard_no_panic. right. exact Hnp.
+  Qed.
+
+  Lemma x_patch_spec c t : CK c -> arity_ok t = true -> exists t', x_patch c t = POk t' /\ arity_ok t' = true.
+  Proof.
+    intros Hk Ha. unfold x_patch, StageTotality.x_patch.
+    rewrite (X.Ops.OverloadProofs.patch_is_map_tree implements (types_of (x_cc c)) (ops_of (cc_ops (x_cc c)))
+               (tyof (x_cc c) t) Hk t (esize t) (le_n _)).
+    eexists. split; [reflexivity|]. apply arity_ok_map_tree_rewrite. exact Ha.
+  Qed.
+
+  Lemma st_patch (s : pst XS) : PTree s -> ex CPatchOperators s <> PPanic /\ (forall s', ex CPatchOperators s = POk s' -> PTree s').
+  Proof.
+    intros [[Hc Hk] (t & Et & Ha)]. cbn [exec]. unfold on_tree. rewrite Et. cbn [s_patch_operators x_stages]. unfold g.
+    destruct (x_patch_spec (p_cfg s) t Hk Ha) as (t' & E & Ha'). rewrite E.
+    case_out t1 E1.
+    - apply guard_ok_inv in E1. inversion E1; subst t1. split; [discriminate|]. intros s' E'. inversion E'; subst s'.
+      apply PTree_with; [split; assumption|exact Ha'].
+    - split; discriminate.
+    - exfalso. revert E1. apply guard_no_panic. right. discriminate.
+  Qed.
+
+  Lemma st_visitors h (s : pst XS) : PTree s -> ex (CVisitors h) s <> PPanic /\ (forall s', ex (CVisitors h) s = POk s' -> PTree s').
+  Proof.
+    intros [[Hc Hk] (t & Et & Ha)]. cbn [exec]. unfold on_tree. rewrite Et. cbn [s_visitors x_stages].
+    destruct (x_run_visitors_ok h (x_visitors (p_cfg s)) t (proj2 Hc) Ha) as [H1 H2].
+    destruct (run_visitors rt XS a h (x_visitors (p_cfg s)) t) as [t'| |]; cbn [obind]; [|split; discriminate|contradiction].
+    split; [discriminate|]. intros s' E'. inversion E'; subst s'. apply PTree_with; [split; assumption|apply H2; reflexivity].
+  Qed.
+
+  Lemma st_optimize (s : pst XS) : HasTree s -> ex COptimize s <> PPanic /\ (forall s', ex COptimize s = POk s' -> HasTree s').
+  Proof.
+    intros (t & Et). cbn [exec]. cbn [s_optimize_on x_stages]. destruct (x_optimize (p_cfg s)).
+    - unfold on_tree. rewrite Et. pose proof (x_optimize_np (p_cfg s) t) as Hnp.
+      destruct (optimize rt XS a (p_cfg s) t) as [t'| |]; cbn [obind]; [|split; discriminate|contradiction].
+      split; [discriminate|]. intros s' E'. inversion E'; subst s'. exists t'. reflexivity.
+    - split; [discriminate|]. intros s' E'. inversion E'; subst s'. exists t. exact Et.
+  Qed.
+
+  Lemma st_compile (s : pst XS) : HasTree s -> ex CCompile s <> PPanic /\ (forall s', ex CCompile s = POk s' -> HasProg s').
+  Proof.
+    intros (t & Et). cbn [exec]. rewrite Et. cbn [s_compile x_stages]. unfold g. rewrite Gcomp.
+    case_out p E.
+    - split; [discriminate|]. intros s' E'. inversion E'; subst s'. exists p. reflexivity.
+    - split; discriminate.
+    - unfold guard in E. destruct (m_compile t); discriminate.
+  Qed.
+
+  Lemma st_run (s : pst XS) : HasProg s -> ex CRun s <> PPanic.
+  Proof.
+    intros (p & Ep). cbn [exec]. rewrite Ep. cbn [s_vm_loop s_envfn x_stages]. unfold g. rewrite Gvm.
+    unfold guard. destruct (m_run fe limit p env); cbn [obind]; discriminate.
+  Qed.
+
+  Lemma PTree_has (s : pst XS) : PTree s -> HasTree s.
+  Proof. intros [_ (t & Et & _)]. exists t. exact Et. Qed.
+
+  (* expr.Compile: the nine stage calls, in the order of the pinned tree (h: is the walk of the user
+     visitors under a recover) *)
+  Lemma compile_calls_np h (s : pst XS) : Forall opt_ok opts -> CI (p_cfg s) ->
+    run_calls rt XS a opts src env
+      [COptions; CConfigCheck; CParse; CCheck true; CPatchOperators; CVisitors h; CCheck false; COptimize; CCompile] s <> PPanic.
+  Proof.
+    intros Ho Hc. cbn [run_calls].
+    destruct (st_options s Ho Hc) as [N1 P1]. apply obind_no_panic; [exact N1|]. intros s1 E1. specialize (P1 s1 E1).
+    destruct (st_config_check s1 P1) as [N2 P2]. apply obind_no_panic; [exact N2|]. intros s2 E2. specialize (P2 s2 E2).
+    destruct (st_parse s2) as [N3 P3]. apply obind_no_panic; [exact N3|]. intros s3 E3.
+    destruct (P3 s3 E3) as (C3 & _ & t3 & T3 & A3).
+    assert (Q3 : PTree s3). { split; [unfold PChk; rewrite C3; exact P2|]. exists t3. split; assumption. }
+    destruct (st_check true s3 Q3) as [N4 P4]. apply obind_no_panic; [exact N4|]. intros s4 E4. specialize (P4 s4 E4).
+    destruct (st_patch s4 P4) as [N5 P5]. apply obind_no_panic; [exact N5|]. intros s5 E5. specialize (P5 s5 E5).
+    destruct (st_visitors h s5 P5) as [N6 P6]. apply obind_no_panic; [exact N6|]. intros s6 E6. specialize (P6 s6 E6).
+    destruct (st_check false s6 P6) as [N7 P7]. apply obind_no_panic; [exact N7|]. intros s7 E7. specialize (P7 s7 E7).
+    destruct (st_optimize s7 (PTree_has s7 P7)) as [N8 P8]. apply obind_no_panic; [exact N8|]. intros s8 E8. specialize (P8 s8 E8).
+    destruct (st_compile s8 P8) as [N9 _]. apply obind_no_panic; [exact N9|]. intros s9 _. discriminate.
+  Qed.
+
+  (* expr.Eval: Parse, Compile(tree, nil), Run *)
+  Lemma eval_calls_np (s : pst XS) : run_calls rt XS a opts src env [CParse; CCompile; CRun] s <> PPanic.
+  Proof.
+    cbn [run_calls].
+    destruct (st_parse s) as [N1 P1]. apply obind_no_panic; [exact N1|]. intros s1 E1.
+    destruct (P1 s1 E1) as (_ & _ & t & Et & _).
+    destruct (st_compile s1 (ex_intro _ t Et)) as [N2 P2]. apply obind_no_panic; [exact N2|]. intros s2 E2. specialize (P2 s2 E2).
+    apply obind_no_panic; [apply st_run; exact P2|]. intros s3 _. discriminate.
+  Qed.
+  End Api.
+
+  Lemma CI_cfg0 : CI (s_cfg0 XS).
+  Proof. split; [reflexivity|constructor]. Qed.
+
+  (* ---- on the regenerated tables *)
+  Theorem compile_models_never_panic opts src env : Forall opt_ok opts ->
+    compile_api gen_recover XS nil_on_err_compile compile_calls opts src env <> APanic.
+  Proof.
+    intros Ho. destruct (guarded_facts ApiCompile) as (G1 & _ & G3 & _ & _).
+    unfold compile_api. apply finish_not_panic.
+    destruct compile_calls_expected as [E|E]; unfold compile_calls, calls_of; rewrite E;
+      apply compile_calls_np; auto; exact CI_cfg0.
+  Qed.
+
+  Theorem eval_models_never_panic src env :
+    eval_api gen_recover XS nil_on_err_eval eval_calls src env <> APanic.
+  Proof.
+    destruct (guarded_facts ApiEval) as (_ & _ & G3 & G4 & _).
+    unfold eval_api. cbn [s_env_is_option x_stages]. apply finish_not_panic.
+    unfold eval_calls, calls_of. rewrite eval_calls_expected. apply eval_calls_np; assumption.
+  Qed.
+
+  Theorem run_models_never_panic src p env :
+    run_api gen_recover XS nil_on_err_run gen_run_nil_guard run_calls_gen src p env <> APanic.
+  Proof. apply run_never_panics_gen. Qed.
+End CompositeProofs.
+
+(* ---- D.4 the three API functions on the models, and the regenerated grammar table *)
+Definition gen_grammar : X.Parse.Parser.grammar :=
+  X.Parse.Parser.mkGrammar X.gen.GenGrammar.gen_unary X.gen.GenGrammar.gen_binary X.gen.GenGrammar.gen_builtins.
+
+Lemma gen_grammar_builtins_ok : ParseArity.builtins_ok gen_grammar = true.
+Proof. vm_compute. reflexivity. Qed.
+
+Theorem containment_models uni_letter uni_digit uni_space gr orc fe limit te perm implements tyof :
+  te_acyclic te = true -> ParseArity.builtins_ok gr = true ->
+  (forall opts src env, Forall opt_ok opts ->
+     compile_api gen_recover (x_stages uni_letter uni_digit uni_space gr orc fe limit te perm implements tyof)
+                 nil_on_err_compile compile_calls opts src env <> APanic) /\
+  (forall src env,
+     eval_api gen_recover (x_stages uni_letter uni_digit uni_space gr orc fe limit te perm implements tyof)
+              nil_on_err_eval eval_calls src env <> APanic) /\
+  (forall src p env,
+     run_api gen_recover (x_stages uni_letter uni_digit uni_space gr orc fe limit te perm implements tyof)
+             nil_on_err_run gen_run_nil_guard run_calls_gen src p env <> APanic).
+Proof.
+  intros Hte Hgr. split; [|split].
+  - intros opts src env Ho. apply compile_models_never_panic; [exact gen_weights_usable|exact Hte|exact Hgr|exact Ho].
+  - intros src env. apply eval_models_never_panic. exact Hgr.
+  - intros src p env. apply run_models_never_panic.
+Qed.
+
+(* without user visitors the only restriction on the options is the pointer-to-map environment *)
+Definition no_visitor (o : xopt) : bool := match o with OPatch _ => false | OEnv env _ => negb (env_panics env) | _ => true end.
+
+Lemma no_visitor_ok opts : forallb no_visitor opts = true -> Forall opt_ok opts.
+Proof.
+  intros H. apply Forall_forall. intros o Hin. rewrite forallb_forall in H. specialize (H o Hin).
+  destruct o; cbn [no_visitor opt_ok] in *; try exact I; [apply negb_true_iff; exact H|discriminate].
+Qed.
